@@ -127,6 +127,7 @@ type Sched struct {
 	evMu     sync.Mutex
 	Events   []Event
 	OnStep   func(s *Sched) // invariants, evaluated at every quiescent point
+	ForceAt  map[uint64]string // step -> action key prefix that must be picked at that step if enabled
 	TraceOut func(string)   // optional verbose trace
 }
 
@@ -155,7 +156,7 @@ func New(seed uint64, cfg Config) *Sched {
 		cfg.Policy = "random"
 	}
 	s := &Sched{Seed: seed, Cfg: cfg, rng: NewRNG(seed).Sub("sched"),
-		names: map[string]int{}, anonN: map[string]int{}, pctPrio: map[string]uint64{}, pctChange: map[int]bool{}}
+		ForceAt: map[uint64]string{}, names: map[string]int{}, anonN: map[string]int{}, pctPrio: map[string]uint64{}, pctChange: map[int]bool{}}
 	s.Stats.Parks = map[string]int{}
 	s.Stats.Pairs = map[string]struct{}{}
 	if cfg.Policy == "pct" {
@@ -665,6 +666,22 @@ func (s *Sched) pick(acts []Action, tickOK bool) (int, bool) {
 				return i, true
 			}
 		}
+		if s.Cfg.Lenient {
+			// re-synchronise: skip recorded decisions that no longer apply (their
+			// task was minimised away) up to a window, else fall back to the policy
+			s.followPos--
+			enabled := map[string]int{}
+			for i, a := range acts {
+				enabled[a.Key] = i
+			}
+			for j := s.followPos; j < len(s.Cfg.Follow) && j < s.followPos+60; j++ {
+				if i, ok := enabled[s.Cfg.Follow[j]]; ok {
+					s.followPos = j + 1
+					return i, true
+				}
+			}
+			s.followPos++
+		}
 		if !s.Cfg.Lenient {
 			var ks []string
 			for _, a := range acts {
@@ -678,6 +695,13 @@ func (s *Sched) pick(acts []Action, tickOK bool) (int, bool) {
 		// strict replay ran out of decisions: continue with run-to-completion
 	}
 
+	if want, ok := s.ForceAt[s.step.Load()]; ok {
+		for i, a := range acts {
+			if strings.HasPrefix(a.Key, want) {
+				return i, true
+			}
+		}
+	}
 	nonTick := len(acts)
 	if tickOK {
 		nonTick--
